@@ -63,6 +63,8 @@ var targets = []target{
 	{dir: ".", files: []string{"message.go", "message_fields.go"}, funcs: []string{"Message.reset", "Message.UnmarshalText"}, out: "Unmarshal", joins: true},
 	// the interpreter of the event stream: fields in, events out
 	{dir: ".", files: []string{"event.go"}, funcs: []string{"read"}, out: "Event", joins: true},
+	// the MessageWriter a provider is handed: Session over any response writer
+	{dir: ".", files: []string{"message.go", "message_fields.go", "session.go"}, funcs: []string{"Session.doUpgrade", "Session.Send", "Session.Flush"}, out: "Session", joins: true},
 }
 
 func die(pos token.Position, format string, a ...any) {
@@ -202,6 +204,12 @@ func (t *tr) leanType(ty types.Type, at ast.Node) string {
 				return "(MsgWriter Message σ)" // any subscriber: a state and what Send / Flush answer and become
 			}
 		}
+		if t.isResW(u) {
+			return "(ResW σ)" // any response writer: a state and what Write / Flush / Header()[k] = v do
+		}
+		if u.Obj().Pkg() != nil && u.Obj().Pkg().Path() == "net/http" && u.Obj().Name() == "Request" {
+			return "Unit" // the request a Session keeps for its user: not looked at by the translated code
+		}
 		if u.Obj().Pkg() != nil && u.Obj().Pkg().Path() == "bufio" && u.Obj().Name() == "SplitFunc" {
 			return "(Bytes → Bool → GoM (Int × (Option Bytes) × (Option String)))"
 		}
@@ -280,6 +288,22 @@ func (t *tr) leanType(ty types.Type, at ast.Node) string {
 	return ""
 }
 
+// isResW: the package's ResponseWriter interface
+func (t *tr) isResW(ty types.Type) bool {
+	n, ok := ty.(*types.Named)
+	if !ok || n.Obj().Pkg() != t.pkg || n.Obj().Name() != "ResponseWriter" {
+		return false
+	}
+	_, isIface := n.Underlying().(*types.Interface)
+	return isIface
+}
+
+// isResWArg: an expression of that type handed to a callee as its io.Writer
+func (t *tr) isResWArg(a ast.Expr) bool {
+	tv, ok := t.info.Types[a]
+	return ok && t.isResW(tv.Type)
+}
+
 // hasSigma: the struct holds a MessageWriter (directly or in a nested struct)
 func (t *tr) hasSigma(st *types.Struct, seen map[*types.Struct]bool) bool {
 	if seen[st] {
@@ -290,6 +314,9 @@ func (t *tr) hasSigma(st *types.Struct, seen map[*types.Struct]bool) bool {
 		ft := st.Field(i).Type()
 		if n, ok := ft.(*types.Named); ok {
 			if n.Obj().Pkg() == t.pkg && n.Obj().Name() == "MessageWriter" {
+				return true
+			}
+			if t.isResW(n) {
 				return true
 			}
 			if s2, ok := n.Underlying().(*types.Struct); ok && t.hasSigma(s2, seen) {
@@ -303,6 +330,9 @@ func (t *tr) hasSigma(st *types.Struct, seen map[*types.Struct]bool) bool {
 // fieldType: the Lean type of a struct field — a pointer to a struct is nil or a value there
 func (t *tr) fieldType(f *types.Var, at ast.Node) string {
 	if p, ok := f.Type().(*types.Pointer); ok {
+		if n, ok := p.Elem().(*types.Named); ok && n.Obj().Pkg() != nil && n.Obj().Pkg().Path() == "net/http" {
+			return "Unit"
+		}
 		if _, basic := p.Elem().Underlying().(*types.Basic); !basic {
 			return "(Option " + t.leanType(p.Elem(), at) + ")"
 		}
@@ -390,7 +420,20 @@ func (t *tr) pkgVarBytes(v *types.Var) (string, bool) {
 								return bytesLit(constant.StringVal(tv.Value)), true
 							}
 						}
-					case *ast.CompositeLit: // []byte{'a', 'b'}
+					case *ast.CompositeLit: // []byte{'a', 'b'}, or []string{"a", "b"}
+						if sl, ok := v.Type().Underlying().(*types.Slice); ok {
+							if b, ok := sl.Elem().Underlying().(*types.Basic); ok && b.Kind() == types.String {
+								var ss []string
+								for _, el := range init.Elts {
+									tv, ok := t.info.Types[el]
+									if !ok || tv.Value == nil || tv.Value.Kind() != constant.String {
+										return "", false
+									}
+									ss = append(ss, bytesLit(constant.StringVal(tv.Value)))
+								}
+								return "[" + strings.Join(ss, ", ") + "]", true
+							}
+						}
 						var bs []byte
 						for _, el := range init.Elts {
 							tv, ok := t.info.Types[el]
@@ -1140,6 +1183,9 @@ func (t *tr) argExpr(e *em, a ast.Expr, wantOpt bool) string {
 	if t.isByteSink(a) {
 		return "(bufWriter " + t.expr(e, stripAddr(a)) + ")" // a writer that appends, never fails
 	}
+	if t.isResWArg(a) {
+		return "(resWriter " + t.expr(e, a) + ")" // the response writer as an io.Writer: same state, same Write
+	}
 	a = stripAddr(a)
 	if wantOpt {
 		return t.optExpr(e, a, true)
@@ -1297,6 +1343,18 @@ func (t *tr) specialMethod(e *em, v *ast.CallExpr) (string, bool) {
 		t.assignTo(e, sel.X, "{ "+w+" with st := "+r+".2 }", false)
 		return r + ".1", true
 	}
+	if t.isResW(n) {
+		w := t.expr(e, sel.X)
+		r := t.fresh("w")
+		switch sel.Sel.Name {
+		case "Flush":
+			e.line("let %s := (%s).flush (%s).st", r, w, w)
+		default:
+			die(t.pos(v), "ResponseWriter.%s", sel.Sel.Name)
+		}
+		t.assignTo(e, sel.X, "{ "+w+" with st := "+r+".2 }", false)
+		return r + ".1", true
+	}
 	// a promoted method: declared on an embedded struct
 	if ix := sl.Index(); len(ix) > 1 {
 		fn := sl.Obj().(*types.Func)
@@ -1330,7 +1388,7 @@ func (t *tr) specialMethod(e *em, v *ast.CallExpr) (string, bool) {
 
 func (t *tr) hasWriterArg(v *ast.CallExpr) bool {
 	for _, a := range v.Args {
-		if t.isByteSink(a) {
+		if t.isByteSink(a) || t.isResWArg(a) {
 			return true
 		}
 		if tv, ok := t.info.Types[a]; ok {
@@ -1364,11 +1422,15 @@ func (t *tr) genericCall(e *em, callee string, recv ast.Expr, v *ast.CallExpr) s
 	}
 	args = append(args, t.argList(e, fs, v.Args)...)
 	sinks := map[ast.Expr]bool{}
+	resWs := map[ast.Expr]bool{}
 	for i, a := range v.Args {
 		if i < len(fs.paramIO) && fs.paramIO[i] {
 			x := stripAddr(a)
 			if t.isByteSink(a) {
 				sinks[x] = true
+			}
+			if t.isResWArg(a) {
+				resWs[x] = true
 			}
 			backs = append(backs, back{x, fs.paramMod[i]})
 		}
@@ -1402,6 +1464,10 @@ func (t *tr) genericCall(e *em, callee string, recv ast.Expr, v *ast.CallExpr) s
 	for j, b := range backs {
 		if sinks[b.x] {
 			t.assignTo(e, b.x, "("+proj(fs.nres+j)+").st", false) // what the buffer holds now
+			continue
+		}
+		if resWs[b.x] {
+			t.assignTo(e, b.x, "{ "+t.expr(e, b.x)+" with st := ("+proj(fs.nres+j)+").st }", false) // the response writer's state now
 			continue
 		}
 		if isPlace(b.x) {
@@ -1681,6 +1747,14 @@ func (t *tr) assignTo(e *em, lhs ast.Expr, val string, define bool) {
 		}
 		e.line("let %s := %s", t.nameOf(t.info.Uses[id]), val)
 	case *ast.IndexExpr:
+		// rw.Header()[key] = values on a response writer: the writer's own transition
+		if c, ok := l.X.(*ast.CallExpr); ok {
+			if sel, ok := c.Fun.(*ast.SelectorExpr); ok && sel.Sel.Name == "Header" && len(c.Args) == 0 && t.isResWArg(sel.X) {
+				w := t.expr(e, sel.X)
+				t.assignTo(e, sel.X, "{ "+w+" with st := ("+w+").setHeader ("+w+").st "+t.expr(e, l.Index)+" "+val+" }", false)
+				return
+			}
+		}
 		// element assignment through a local slice or a slice field of an in/out struct (value semantics: the
 		// translated functions own the slice they write to)
 		i := t.expr(e, l.Index)
